@@ -26,8 +26,8 @@ from rules import C09
 
 NEEDS_SDK = True
 
-NORM_P = dict(rename={"sqrt_price_from_tick_index": "tick_index_to_sqrt_price", "tick_index_from_sqrt_price": "sqrt_price_to_tick_index"})
-NORM_S = dict()
+NORM_P = dict(rename={"sqrt_price_from_tick_index": "tick_index_to_sqrt_price", "tick_index_from_sqrt_price": "sqrt_price_to_tick_index"}, const_values=True)
+NORM_S = dict(const_values=True)
 
 ERR_MAP = {"InvalidTimestamp": "INVALID_TIMESTAMP"}
 
